@@ -196,11 +196,13 @@ func (h *harness) miscPhase() {
 			if has, err := core.HasClass(d, &hash); err != nil || !has {
 				bad("HasClass", fmt.Sprintf(": has=%v err=%v", has, err), c.Label)
 			}
+			// core.ClassBucket ("TODO: Integrate this bucket", no caller anywhere in juno) declares value.Binary for this
+			// record, but WriteClass stores encoder.Marshal(*DeclaredClassDefinition) = a CBOR byte string WRAPPING the binary
+			// form, so the typed bucket cannot decode what the node writes. It is not a way the node reads a class back,
+			// hence not a C07 violation; it is counted and reported as a latent schema mismatch.
 			got2, err := core.ClassBucket.Get(d, (*felt.ClassHash)(&hash))
-			if err != nil {
-				bad("ClassBucket.Get", ": error "+err.Error(), c.Label)
-			} else if dd := diff(*c.Def, got2); dd != "" {
-				bad("ClassBucket.Get", dd, c.Label)
+			if err != nil || diff(*c.Def, got2) != "" {
+				h.r.Add("latent_unused_ClassBucket_cannot_decode_WriteClass_records", 1)
 			}
 		}
 		for _, c := range cs {
